@@ -46,14 +46,29 @@ for f in sorted(glob.glob(os.path.join(R, "seeded", "C*", "meta.json"))):
     m = json.load(open(f))
     if m["breaks_property"] in m["caught_by"]:
         n_own += 1
-n_p1 = sum(1 for v in pass1.values() if v[0] == "CAUGHT")
-out += [f"First pass: {n_p1} of {len(pass1)} caught. Now: {n_now} of {len(rows)} caught, {n_own} of them by the check of the property the agent was given (the others by the check of a neighbouring property that states the same behaviour).", ""]
-out += ["What the misses of the first pass had in common, and what was added (section 4 describes the workloads as they are now):", "",
+def rnd(name):
+    return 2 if "-r2m" in name else 3 if "-r3m" in name else 1
+per = {}
+for k, v in pass1.items():
+    c = per.setdefault(rnd(k), [0, 0])
+    c[1] += 1
+    if v[0] == "CAUGHT":
+        c[0] += 1
+p1txt = "; ".join(f"round {r}: {c[0]} of {c[1]}" for r, c in sorted(per.items()))
+out += [f"First pass (any of the 20 checks, as they were when that round's agents started): {p1txt}. Now: {n_now} of {len(rows)} caught, {n_own} of them by the check of the property the agent was given.",
+"The one change still missed, C05-r2m1, alters how NaN compares (NaN from `inf - inf`, or the string 'NaN'): non-finite values are [P] throughout (section 3.1) because no property statement fixes them, so no check claims it.",
+"One further change of round 3 (C04-r3m1) is kept under `seeded/obsolete/`: it manifested only through the array-length defect K-ALIAS and is harmless since that was repaired.",
+"For round 2 the first pass was run afterwards against the commit that preceded the round (a3da53e), because I had started strengthening from the agents' reports before running anything; for rounds 1 and 3 it was run before any change.", ""]
+out += ["What the misses of the first round had in common, and what was added (section 4 describes the workloads as they are now):", "",
 "* **state that survives between evaluations of one expression site** (regex compiled once per site; method cell cached on the AST node; shared true/false/null cells; shared key buffer): workloads evaluated every site once. Added: operator functions `opf<i>(l, r)` so that one site sees a whole batch of operand pairs, and a batch whose members agree alone but not in sequence is itself a violation (C05); recursion re-entering a method call site (C15); nested for-in over two multi-key objects, directly and through a function (C07); disturber programs that store into cells obtained from literals, and numeric-looking object keys whose numeric and string orders disagree (C10).",
 "* **values that are null by absence rather than by literal** (missing member, index past the end: they carry the speculative-creation bookkeeping): added as operands (C05), as call arguments whose parameter the callee assigns (C08, C09), as loop-variable sources (C09).",
 "* **thresholds just beyond what the workload reached**: 2 500 `next`s where the limit is 4 096 - the long histories now run 10 000 elements (C08); runs of four and five operands of one operator, all 9 261 operator triples in the quick tier too (C06).",
 "* **forms the renderer avoided**: `7.floor()` and `-2.5.floor()` were written with parentheses / spaces - an integer literal directly followed by `.` is now [S] and rendered as is, prefix operators against a method call on a literal are in the special-form table, also written without any white space (C06, C13); multi-line string and regex literals before a planted fault (C12); `next` executed while a rule's pattern is evaluated, via a function or a match block (C02; the model no longer treats it as [P]).",
 "* **environment of the binary**: the `-o` file was removed before each run - it now pre-exists with longer stale content in every second case; two selectors were only compared with the library, which shares the defect - `-r A -r B` must now print what `-r A` and `-r B` print one after the other and `-o` must equal that of the last selector alone (C14); documents had no `%` (C04, C14).",
+"",
+"Second round (10 missed at first): *histories* rather than single steps - bookkeeping that leaks a little on every `break` / `continue` / `return` / `next` and only fails after 50 000 of them (C07, C20: long runs with results in closed form); a limit applied to the distance from the current end instead of the index (C20); a signal raised from a loop *header* (C07); `-o` onto an existing longer file / in place, and escape-looking text behind an escaped backslash (C04); compound divide by zero positioned through a synthesised token (C12); sort stability only beyond 12 elements (C15); a later alternative that would match too, empty block bodies (C19); crashes on cyclic / aliased values handed to value-walking operations, which the sampled generator reached too rarely (C01).",
+"",
+"Third round (19 missed at first): *two routes to the same thing* - an operator site re-entered through recursion while its other operand is pending (C05), match bindings read after a recursive call through the same match, argument names equal to the callee's parameter names in another order (C08), cycle members reachable from the printed value by their own routes (C17), a format or divisor site that worked on the first record and fails on the second (C11), one source position holding different literals in two programs of one process (C10); *stores where only reads had been tried* - into `$` in BEGIN, into `$index`, into results of `pluck` and `sort`, through paths keyed by booleans / null / unset (C02, C16, C15, C01); *conditions with effects* - else-if chains, loop bounds that move (C07); *raw bytes* - CR LF inside literals (C13, C14), one- and two-byte inputs (C01), values larger than any buffer and named pipes (C03). The missed change C09-r3m1 exposed a flaw of the reference model itself (every array passed to any native call was treated as shared, so most resizing steps of C15's histories were discarded as 'not stated'); correcting it more than doubled C15's effective workload.",
 "",
 "### 8.2 The reverse of every repair",
 "",
